@@ -2,7 +2,7 @@ use naijascript::diagnostics::AsStr;
 use naijascript::syntax::parser::{MAX_NESTING_DEPTH, SyntaxError};
 
 mod common;
-use crate::common::with_pipeline;
+use crate::common::{with_pipeline, with_stress_pipeline};
 
 fn too_deep(src: &str) -> bool {
     with_pipeline(src, |_, (_, parse_errors), _, _| {
@@ -35,4 +35,19 @@ fn nesting_past_the_limit_is_one_syntax_error() {
             assert_eq!(messages, [SyntaxError::NestingTooDeep.as_str()]);
         });
     }
+}
+
+#[test]
+fn chains_at_many_nesting_levels_do_not_add_up_to_a_deep_tree() {
+    // every level is below the limit on its own: level d wraps `[..]` in 240 - d index steps
+    let mut src = String::from("1");
+    for d in (2..=240).rev() {
+        src = format!("[{src}]{}", "[0]".repeat(240 - d));
+    }
+    let src = format!("make a get {src}");
+    // (the tree is large before it is refused: use the larger arenas)
+    let refused = with_stress_pipeline(&src, |_, (_, parse_errors), _, _| {
+        parse_errors.diagnostics.iter().any(|e| e.message == SyntaxError::NestingTooDeep.as_str())
+    });
+    assert!(refused);
 }
